@@ -27,8 +27,10 @@ INFO = dict(
               "row-sorting permutation; dense scatter equals the same sum on simple graphs and is characterised exactly "
               "(last writer wins) on every digraph; symmetry, graph sparsity, quadratic-form identity hence PSD; "
               "Mahalanobis identities; covariance / inverse contracts; the coded truncated-SVD inverse equals the truncated "
-              "pseudo-inverse under numpy's SVD contract; object level = vector level; PCA of the precision; float32 "
-              "storage bound) + model/implementation correspondence (the driver also executes the translated-equal "
+              "pseudo-inverse under numpy's SVD contract (an idealised contract over the rationals: no float output "
+              "satisfies it exactly); object level = vector level; PCA of the precision; a bound on the rounding of the "
+              "STORED entries in float32 - the rounding of the float32 accumulation itself is covered by the oracle's "
+              "tolerance, not by a theorem) + model/implementation correspondence (the driver also executes the translated-equal "
               "definitions) and an exact-rational oracle on random graphs and data",
     level_text="The routines the theorems speak about are the current source text: the translator turns "
                "_covariance_matrix_inverse (np.atleast_2d, the n_components test, the try / bare except around the "
@@ -53,9 +55,11 @@ INFO = dict(
                "numpy's promise, the translated sparse and dense constructors invert the same covariances, the stored "
                "block-sparse-row matrix denotes the dense one = sum over edges (vertices) of the embedded inverted "
                "covariances, x'Px = sum_e x_e' B_e x_e; with the translated _covariance_matrix_inverse and "
-               "n_components=None the translated GMRFVectorModel.__init__ is the model's build (raises exactly when a "
-               "covariance is singular, also for a single feature thanks to np.atleast_2d; symmetric, PSD, "
-               "graph-sparse precision, sample mean); with n_components the coded slices and products are the model's "
+               "n_components=None the translated GMRFVectorModel.__init__ is the model's build IN EXACT ARITHMETIC (it "
+               "returns exactly when every covariance has an exact inverse - floating-point np.linalg.inv raises only on "
+               "an exact zero pivot, and ill-conditioned data are outside the property's quantifier and rejected by the "
+               "generator -, also for a single feature thanks to np.atleast_2d; whenever the dense constructor returns so "
+               "does the sparse one, with the same entries; symmetric, PSD, graph-sparse precision, sample mean); with n_components the coded slices and products are the model's "
                "svdTrunc, proved equal to the truncated pseudo-inverse sum_{i<n} w_i w_i'/(sigma_i |w_i|^2) of any "
                "orthogonal eigen-decomposition (numpy's SVD contract, symmetric input, separated cut), which the model "
                "evaluates exactly on data with rational eigen-decompositions after verifying the decomposition itself; "
@@ -63,7 +67,13 @@ INFO = dict(
                "distances; for every digraph without self loops (antiparallel pairs included) the dense scatter is "
                "proved to hold the edge sum on diagonal blocks and the last writer on off-diagonal blocks; the translated "
                "_mahalanobis_distance returns (x_i - mu)' P (x_i - mu) for either storage, batched or single (a number "
-               "for one sample), non-negative for a PSD precision, zero at the mean.  Tied to /repo additionally by "
+               "for one sample), non-negative for a PSD precision, zero for a row equal to the mean "
+               "(coded_mahalanobis_correct).  The translation is VALUE-LEVEL: the obligations do not see object identity, "
+               ".copy(), in-place versus rebinding through an alias, or numpy's shape / index errors; `p op= e` on a "
+               "parameter is refused as untranslatable, and every dtype= / shape= argument is carried as an opaque word so "
+               "that a hard-coded or dropped one no longer proves equal; that a query or a constructor leaves the caller's "
+               "objects and the model untouched is NOT part of the property text and is only observed (counted) by the "
+               "harness; its consequence - different answers for the same re-used query object - is judged.  Tied to /repo additionally by "
                "building real models on random undirected graphs, trees, antiparallel-free digraphs and edgeless graphs "
                "(2-7 vertices, 1-3 features, modes x biases x dtypes x rank truncation x training data as float64 / "
                "float32 / int64 / int32 arrays, Fortran order, lists, point sets x incremental flag; queries as float64 / "
@@ -81,7 +91,15 @@ INFO = dict(
                "sorts, ties in any order: ArgsortOK, satisfied by the driver's insertion argsort, theorem argsortIns_ok); "
                "np.linalg.inv returns the inverse (the model inverts exactly and checks C*B=1 itself); np.linalg.svd "
                "(C = U diag(s) Vh, orthogonal factors, s descending: spot-verified on the first unit of every truncated "
-               "case, together with the common threshold at the cut); np.cov (0-dimensional for a single column); np.sqrt. "
+               "case, together with the common threshold at the cut); np.cov (0-dimensional for a single column); np.sqrt; "
+               "menpo/shape/graph.py (graph.edges, graph.n_vertices, graph.n_edges are read, not translated). "
+               "Totalisations of the vocabulary: 1/0 = 0 in np.diag(1 / v) (numpy: inf / NaN without an exception; the "
+               "positivity of the kept singular values enters with the hypothesis Cut of svdTrunc_eq_specTrunc and the "
+               "generator's guard), int(n_features / n_vertices) as natural-number division (0 vertices: outside), an "
+               "out-of-range index reads 0 / writes nothing, a slice assignment does not check the shape of its right-hand "
+               "side. The vocabulary maps one numpy call to one word (no rule covers a nested expression except "
+               "np.tile(m[..., None], n).T, x.as_vector()[..., None].T and np.array(x)[:n], which are single idioms); "
+               "dtype= and shape= are kept as opaque words, verbose is fixed to False. "
                "Float rounding is absorbed by 1e-9 (float64) / 1e-4 (float32 precision or float32 training data) "
                "relative tolerances on inputs whose exact inverses are bounded.",
     rule="a case = one (graph, features per vertex, mode, bias, dtype, n_components, data set, query set) built in both "
@@ -104,12 +122,27 @@ INFO = dict(
              "components are checked numerically as eigenpairs of the expected precision (dense storage; the sparse "
              "branch goes through ARPACK and returns one component fewer, observed and counted, not judged); "
              "incremental updates belong to C11 (for return_covariances=True only 'same matrix as the plain call' is "
-             "proved: denseCodedRC_eq, sparseCodedRC_eq, ...)"],
-    assumptions=["generated data sets have exactly invertible covariances whose inverse entries are bounded by 256 "
+             "proved: denseCodedRC_eq, sparseCodedRC_eq, ...); PCA is not a clause of the property text: nothing about it "
+             "is an oracle failure",
+             "the truncation chain (svd_eq_spec_matrix, svdTrunc_eq_specTrunc, ...) is about an exact SVD / eigen-"
+             "decomposition over the rationals; the float factors numpy returns satisfy it only approximately (spot-"
+             "verified numerically), so for generic data the truncated blocks are decided by the oracle"],
+    assumptions=["graph.edges (menpo/shape/graph.py, not translated) lists every edge of the graph exactly once and no self "
+                 "loop: hypothesis SimpleEdges of the theorems; a graph with a self loop is accepted by UndirectedGraph "
+                 "(triu keeps the diagonal) and makes every GMRF build raise LinAlgError (singular covariance): such graphs "
+                 "are outside 'well-conditioned data' and are not generated",
+                 "generated data sets have exactly invertible covariances whose inverse entries are bounded by 256 "
                  "(checked on the exact rational inverse before the implementation runs)",
                  "for rank truncation the kept and dropped eigenvalues of every covariance differ by a factor >= 1.5"],
     design_ref="DESIGN.md section 6, C12")
-IMPORTS = ["MenpoModel.Props.C12"]
+GEN_IMPORT = "MenpoModel.GenProps.C12Src"
+GEN_THEOREMS = ["MenpoModel.GenProps.C12Src." + t for t in (
+    "genCovInverse_eq genCreateDense_eq genCreateDenseRC_eq genCreateSparse_eq genCreateSparseRC_eq genCreateDenseDiag_eq "
+    "genCreateDenseDiagRC_eq genCreateSparseDiag_eq genCreateSparseDiagRC_eq callCtor_eq genDataToMatrix_eq genVecInit_eq "
+    "genObjInit_eq genVecDefaults_eq genObjDefaults_eq genVecMean_eq genObjMean_eq genMahalanobisCore_eq "
+    "genVecMahalanobis_eq genObjMahalanobis_eq genVecPca_eq genObjPca_eq").split()]
+# the regenerated obligations are part of the proof: they are axiom-audited and scanned with the property theorems
+IMPORTS = ["MenpoModel.Props.C12", GEN_IMPORT]
 THEOREMS = [
     "MenpoModel.C12.bsr_denotes_sum_any_sort",
     "MenpoModel.C12.bsr_denotes_sum",
@@ -140,8 +173,6 @@ THEOREMS = [
     "MenpoModel.C12.inv_cov_symm_psd",
     "MenpoModel.C12.truncated_inverse_symm_psd",
     "MenpoModel.C12.build_correct",
-    "MenpoModel.C12.build_coded_refuted_scalar_feature",
-    "MenpoModel.C12.buildCoded_eq_fixed",
     # extension: every digraph without self loops
     "MenpoModel.C12.dense_general",
     "MenpoModel.C12.dense_general_symmetric",
@@ -161,7 +192,6 @@ THEOREMS = [
     "MenpoModel.C12.precision_qf_mono",
     "MenpoModel.C12.truncated_precision_le",
     # extension: object level, PCA, float32 storage
-    "MenpoModel.C12.gmrfModel_eq_vectorModel",
     "MenpoModel.C12.gmrfModel_mean",
     "MenpoModel.C12.gmrfModel_query_batch_eq_single",
     "MenpoModel.C12.fromVector_asVector",
@@ -187,7 +217,6 @@ THEOREMS = [
     "MenpoModel.C12.Src.vertexCov_eq",
     "MenpoModel.C12.Src.covInverseCoded_none",
     "MenpoModel.C12.Src.covInverseCoded_some",
-    "MenpoModel.C12.Src.npInv_scalar_refused",
     "MenpoModel.C12.Src.vecInit_dense_eq_build",
     "MenpoModel.C12.Src.vecInit_sparse_eq",
     "MenpoModel.C12.Src.coded_bsr_denotes_sum",
@@ -198,12 +227,11 @@ THEOREMS = [
     "MenpoModel.C12.Src.coded_constructor_correct",
     "MenpoModel.C12.Src.coded_mahalanobis_correct",
     "MenpoModel.C12.Src.coded_objInit",
-    "MenpoModel.C12.Src.vecInit_list",
     "MenpoModel.C12.Src.vecInit_list_all",
     "MenpoModel.C12.Src.objVec_eq_asVector",
     "MenpoModel.C12.Src.objInit_eq_vecInit_asMatrix",
     "MenpoModel.C12.Src.vecInit_incremental",
-]
+] + GEN_THEOREMS
 
 TOL64 = 1e-9
 TOL32 = 1e-4
@@ -680,6 +708,15 @@ def py_replay(case):
                                          case["mode"], case["n_components"], case["dtype"], case["bias"]))
 
 
+def observe(ctx, key, text):
+    """something the property text does not demand (requested dtype / storage type honoured, the caller's objects and the
+    model untouched by a call, PCA of the precision, the BSR internals): counted and noted, never a failure"""
+    ctx.count("observation:" + key)
+    lst = getattr(ctx, "ctx", ctx).notes.setdefault("observations_beyond_the_property_text", [])
+    if len(lst) < 12:
+        lst.append("%s: %s" % (key, text[:300]))
+
+
 # ------------------------------------------------------------------------------- one case: oracle + model line
 
 def run_case(ctx, case, lines, pending, with_model=True):
@@ -731,8 +768,8 @@ def run_case(ctx, case, lines, pending, with_model=True):
             ctx.fail(site + "/build", pattern, "constructing the model raises %s: %s" % (res[1], res[2]), rp)
     else:
         ms, md, g = res[1]
-        ctx.check(not res[2]["data_modified"], site + "/build", "training-data-modified",
-                  "a constructor changed the training data it was handed (array / list / samples of the caller)", rp)
+        if res[2]["data_modified"]:
+            observe(ctx, "training-data-modified", "a constructor changed the training data it was handed (%s)" % case.get("layout"))
         try:
             oracle(ctx, case, ms, md, E, Ef, exact, scale, tol, site, rp, units, blocks)
         except common.Infra:
@@ -805,15 +842,17 @@ def oracle(ctx, case, ms, md, E, Ef, exact, scale, tol, site, rp, units=None, bl
     n = V * k
     edges = [tuple(e) for e in case["edges"]]
     adj = {(u, v) for u, v in edges} | {(v, u) for u, v in edges}
-    bound = tol * (1.0 + scale)
-    ctx.check(sp.issparse(ms.precision) and isinstance(md.precision, np.ndarray), site + "/storage", "wrong-type",
-              "sparse=True must store a scipy sparse matrix and sparse=False an ndarray, got %s / %s" % (
-                  type(ms.precision).__name__, type(md.precision).__name__), rp)
+    # the precision is computed from np.cov, which promotes to float64: only a requested float32 dtype loosens its checks;
+    # `tol` (which float32 training data loosen as well: the mean is then single precision) is for mean and distances
+    bound = (TOL64 if case["dtype"] == "float64" else TOL32) * (1.0 + scale)
+    if not (sp.issparse(ms.precision) and isinstance(md.precision, np.ndarray)):
+        observe(ctx, "storage-type", "sparse=True stores %s, sparse=False stores %s" % (
+            type(ms.precision).__name__, type(md.precision).__name__))
     Ps = np.asarray(ms.precision.toarray() if sp.issparse(ms.precision) else ms.precision, dtype=float)
     Pd = np.asarray(md.precision.toarray() if sp.issparse(md.precision) else md.precision, dtype=float)
     want_dt = case["dtype"]
-    ctx.check(str(ms.precision.dtype) == want_dt and str(md.precision.dtype) == want_dt, site + "/dtype", "wrong-dtype",
-              "precision dtype %s / %s, requested %s" % (ms.precision.dtype, md.precision.dtype, want_dt), rp)
+    if not (str(ms.precision.dtype) == want_dt and str(md.precision.dtype) == want_dt):
+        observe(ctx, "precision-dtype", "precision dtype %s / %s, requested %s" % (ms.precision.dtype, md.precision.dtype, want_dt))
     if Ps.shape != (n, n) or Pd.shape != (n, n):
         ctx.fail(site + "/shape", "wrong-shape", "precision shapes %r / %r, expected (%d, %d)" % (Ps.shape, Pd.shape, n, n), rp)
         return
@@ -885,13 +924,15 @@ def oracle(ctx, case, ms, md, E, Ef, exact, scale, tol, site, rp, units=None, bl
         before_q = digest(qobj)
         before_m = {name: model_digest(mod) for name, mod in models}
         out = fn()
-        ctx.check(digest(qobj) == before_q, site + "/mahalanobis/caller-array", "query-modified-in-place",
-                  "the query object handed to mahalanobis_distance (%s, %s) was modified by the call (%s): the next "
-                  "call with the same object answers for another point" % (
-                      case.get("qkind", "float64"), "GMRFModel" if case["vectorizable"] else "GMRFVectorModel", label), rp)
+        # neither is a clause of the property text: observed; what the text does say (the same distances for sparse / dense,
+        # batched / single, on the SAME query) is judged below on the re-used object, which is how a modified query shows
+        if digest(qobj) != before_q:
+            observe(ctx, "query-modified-in-place", "the %s query of a %s was modified by the call (%s)" % (
+                case.get("qkind", "float64"), "GMRFModel" if case["vectorizable"] else "GMRFVectorModel", label))
         for name, mod in models:
-            ctx.check(model_digest(mod) == before_m[name], site + "/mahalanobis/repeat/" + name, "model-changed-by-query",
-                      "precision or mean_vector of the %s model changed during the call (%s)" % (name, label), rp)
+            if model_digest(mod) != before_m[name]:
+                observe(ctx, "model-changed-by-query", "precision or mean_vector of the %s model changed during the call (%s)" % (
+                    name, label))
         return out
 
     want = []
@@ -995,8 +1036,8 @@ def oracle(ctx, case, ms, md, E, Ef, exact, scale, tol, site, rp, units=None, bl
 def pca_observation(ctx, case, ms, md, Ef, scale, site, rp):
     """principal_components_analysis observes the precision (theorem precision_pca): every returned pair (c, nu) must be
     an eigenpair of the expected precision with eigenvalue 1/nu, the components orthonormal, the mean the model mean,
-    and with all components kept the Mahalanobis distance is the whitened norm of the projections.  Dense storage is
-    judged; the sparse branch (ARPACK, one component fewer by construction) is observed and counted only."""
+    and with all components kept the Mahalanobis distance is the whitened norm of the projections.  PCA is not a clause of
+    the property text (it is only a place where the precision can be observed): everything here is counted / noted."""
     import numpy as np
     n = case["V"] * case["k"]
     try:
@@ -1004,8 +1045,7 @@ def pca_observation(ctx, case, ms, md, Ef, scale, site, rp):
         comps = np.asarray(pca.components, dtype=float)
         ev = np.asarray(pca.eigenvalues, dtype=float)
     except Exception as e:
-        ctx.fail(site + "/pca/dense", "raises-" + type(e).__name__, "principal_components_analysis raised %s: %s" % (
-            type(e).__name__, str(e)[:120]), rp)
+        observe(ctx, "pca-dense-raises-" + type(e).__name__, str(e)[:120])
         return
     ctx.count("pca:dense-components=%s" % ("all" if len(ev) == n else "fewer"))
     bound = 1e-8 * (1.0 + scale)
@@ -1014,10 +1054,12 @@ def pca_observation(ctx, case, ms, md, Ef, scale, site, rp):
         resid = float(np.abs(Ef.dot(comps.T) - comps.T / ev).max())
         gram = float(np.abs(comps.dot(comps.T) - np.eye(len(ev))).max())
         ok = resid <= bound and gram <= 1e-8 and bool(np.all(np.diff(ev) <= 1e-9 * (1 + ev.max())))
-    ctx.check(ok, site + "/pca/dense", "not-eigenpairs-of-precision",
-              "the components / eigenvalues returned by principal_components_analysis are not orthonormal eigenvectors of "
-              "the precision with inverted eigenvalues in descending order (shape %r, eigenvalues %r)" % (
-                  comps.shape, ev.tolist()), rp)
+    if not ok:
+        observe(ctx, "pca-dense-not-eigenpairs-of-precision",
+                "the components / eigenvalues returned by principal_components_analysis are not orthonormal eigenvectors of "
+                "the precision with inverted eigenvalues in descending order (shape %r)" % (comps.shape,))
+    else:
+        ctx.count("pca:dense-eigenpairs-of-the-expected-precision")
     if ok and len(ev) == n:
         q = np.array([[float(Fraction(x)) for x in r] for r in case["Q"]])
         mu = np.asarray(md.mean_vector, dtype=float)
@@ -1025,8 +1067,9 @@ def pca_observation(ctx, case, ms, md, Ef, scale, site, rp):
         white = ((z.dot(comps.T)) ** 2 / ev).sum(axis=1)
         direct = np.einsum("ij,ij->i", z.dot(Ef), z)
         sc = float(np.abs(direct).max())
-        ctx.check(bool(np.all(np.abs(white - direct) <= 1e-8 * (1 + sc))), site + "/pca/dense", "whitened-norm-differs",
-                  "sum (c_i.(x-mu))^2/nu_i = %r differs from (x-mu)'P(x-mu) = %r" % (white.tolist(), direct.tolist()), rp)
+        if not bool(np.all(np.abs(white - direct) <= 1e-8 * (1 + sc))):
+            observe(ctx, "pca-dense-whitened-norm-differs", "sum (c_i.(x-mu))^2/nu_i = %r, (x-mu)'P(x-mu) = %r" % (
+                white.tolist(), direct.tolist()))
     try:
         ps = ms.principal_components_analysis()
         ctx.count("pca:sparse-components=n%+d" % (len(ps.eigenvalues) - n))
@@ -1093,7 +1136,7 @@ def compare_one(ctx, reply, item):
             ctx.mismatch(model_op, "model says %r, implementation built a model" % reply[:80], rp)
             continue
         ms, md, g = res[1]
-        bound = tol * (1.0 + scale)
+        bound = (TOL64 if case["dtype"] == "float64" else TOL32) * (1.0 + scale)
         Ps = np.asarray(ms.precision.toarray() if sp.issparse(ms.precision) else ms.precision, dtype=float)
         Pd = np.asarray(md.precision, dtype=float) if not sp.issparse(md.precision) else md.precision.toarray()
         D = np.array([float(Fraction(t)) for t in out["D"]]).reshape(n, n)
@@ -1106,8 +1149,10 @@ def compare_one(ctx, reply, item):
                 float(np.abs(Ps - S).max()) if Ps.shape == (n, n) else -1), rp)
         if sp.issparse(ms.precision) and hasattr(ms.precision, "indptr"):
             ip = [int(x) for x in ms.precision.indptr.tolist()]
-            if ip != [int(t) for t in out["IP"]]:
-                ctx.mismatch("indptr", "indptr %r, model %r" % (ip, out["IP"]), rp)
+            if ip != [int(t) for t in out["IP"]]:       # an internal of the storage, not behaviour: noted only
+                observe(ctx, "bsr-indptr-differs-from-model", "indptr %r, model %r" % (ip, out["IP"]))
+            else:
+                ctx.count("model:indptr-agrees")
         mu = [float(Fraction(t)) for t in out["MU"]]
         mtol = TOL32 if case.get("layout") == "float32" else TOL64
         if not all(common.close(a, b, 8.0, mtol) for a, b in zip(np.asarray(ms.mean_vector, dtype=float).tolist(), mu)):
@@ -1319,12 +1364,36 @@ def generated(ctx):
     ctx.count("translation:" + ("ok" if ok else "broken"))
 
 
+def prepare(ctx):
+    """regenerate + build the translation, then build and audit.  When the regenerated obligations hold they are audited
+    (axioms, forbidden constructs) together with the property theorems; when they are broken (what the working tree says
+    now) the hand-written theorems are audited alone and the break is pursued as a broken obligation, never as an
+    infrastructure error"""
+    generated(ctx)
+    gen_ok = not ctx.broken_obligations
+    hand_t = [t for t in THEOREMS if t not in GEN_THEOREMS]
+    if gen_ok:
+        try:
+            return common.prepare_lean(ctx, PROP, IMPORTS, THEOREMS)
+        except common.Infra as e:
+            # is it the generated part that fails the audit?  then it is a broken obligation
+            common.prepare_lean(ctx, PROP, [i for i in IMPORTS if i != GEN_IMPORT], hand_t)     # raises if it is not
+            ctx.broken_obligations.append({"targets": [GEN_IMPORT], "errors": [str(e)[:1500]],
+                                           "output_tail": "axiom audit of the regenerated obligations failed"})
+            return None
+    return common.prepare_lean(ctx, PROP, [i for i in IMPORTS if i != GEN_IMPORT], hand_t)
+
+
 def run(ctx):
-    common.prepare_lean(ctx, PROP, IMPORTS, THEOREMS, generated=generated)
-    ctx.trusted += ["harness/py2lean2.py + py2lean2t.py (translator) and harness/trans_c12.py (vocabulary): the source text of "
-                    "gmrf.py is what Generated/C12Src.lean says",
-                    "scipy.sparse.bsr_matrix denotation (duplicates summed; spot-verified every case)",
-                    "np.linalg.inv / np.linalg.svd / np.cov contracts (spot-verified; the model inverts exactly and checks C*B=1)"]
+    prepare(ctx)
+    ctx.trusted += ["scipy.sparse.bsr_matrix denotation (duplicates summed; spot-verified every case)",
+                    "np.linalg.inv / np.linalg.svd / np.cov contracts (spot-verified; the model inverts exactly and checks C*B=1)",
+                    "ndarray.argsort returns a permutation that sorts, ties in any order (hypothesis ArgsortOK of the "
+                    "theorems about the translated sparse constructors; the driver's argsortIns is proved to satisfy it)",
+                    "np.sqrt (a function parameter of the translated _mahalanobis_distance; square_root=True is only checked "
+                    "at the mean)",
+                    "menpo/shape/graph.py: graph.edges lists every edge once and graph.n_vertices is the number of vertices "
+                    "(not translated; the oracle places its blocks from the edge list it handed to the graph constructor)"]
     lines, pending = [], {}
     corpus(ctx, lines, pending)
     explore(ctx, ctx.n(320, 2600), lines, pending)
@@ -1349,7 +1418,7 @@ def replay(ctx, path):
         print("no recorded case in %s; re-running the quick exploration with seed %r" % (path, data.get("seed")))
         return run(common.Ctx(PROP, "quick", int(data.get("seed", 0))))
     print("replaying recorded case: %s" % json.dumps({k: case[k] for k in case if k not in ("X", "Q")}))
-    common.prepare_lean(ctx, PROP, IMPORTS, THEOREMS, generated=generated)
+    prepare(ctx)
     lines, pending = [], {}
     if not run_case(ctx, case, lines, pending):
         print("recorded case is rejected by the generator's conditioning guard")
